@@ -144,7 +144,8 @@ def function_spans(text):
             qual = '::'.join(mods + types[-1:] + inner_fn + [fname])
             res.append({'name': qual, 'module': mods[0] if mods else '', 'start': line(t[2]),
                         'end': line(toks[endtok][2]), 'has_body': toks[code[j]][1] == '{',
-                        'body_off': toks[code[j]][3] if toks[code[j]][1] == '{' else None})
+                        'body_off': toks[code[j]][3] if toks[code[j]][1] == '{' else None,
+                        'fn_off': t[2], 'end_off': toks[endtok][3]})
             if toks[code[j]][1] == '{':
                 ctx.append((endtok, 'fn', fname))
             k = j + 1
@@ -524,6 +525,50 @@ def vacuity_run(text, linemap, mods, units, sub):
     return len(spans), vac
 
 
+def externalise(text, names):
+    """Replace the bodies of the named functions by `{ unimplemented!() }` and mark them external_body: their contracts
+    stay (assumed), their text -- which the front end rejected, e.g. because the annotations no longer fit it -- is no
+    longer part of the proof.  The number of lines is preserved."""
+    spans = [f for f in function_spans(text) if f['name'] in names and f['has_body']]
+    # innermost duplicates (nested fns) are not expected; process from the end so offsets stay valid
+    for f in sorted(spans, key=lambda f: -f['body_off']):
+        body = text[f['body_off'] - 1:f['end_off']]
+        keep_lines = body.count('\n')
+        text = text[:f['body_off'] - 1] + '{ unimplemented!() }' + '\n' * keep_lines + text[f['end_off']:]
+        # the attribute goes in front of the `fn` keyword's line start (after visibility qualifiers is not valid: put it
+        # before the whole item line)
+        ls = text.rfind('\n', 0, f['fn_off']) + 1
+        text = text[:ls] + '#[verifier::external_body] ' + text[ls:]
+    return text
+
+
+def front_end_functions(res, text, linemap):
+    """functions (of mirrored modules) in which the front end reported an error -> (names, errors elsewhere)"""
+    spans = function_spans(text)
+    names = set()
+    elsewhere = []
+    for d in res['diags']:
+        if d.get('level') != 'error':
+            continue
+        msg = d.get('message', '')
+        if msg.startswith('aborting due to') or any(m in msg for m in VERIF_MSGS) and not (d.get('code') or {}).get('code'):
+            continue
+        locs = [sp for sp in d.get('spans', []) if sp.get('file_name', '').endswith('mirror.rs')]
+        hit = None
+        for sp in locs:
+            cands = [f for f in spans if f['has_body'] and f['start'] <= sp['line_start'] <= f['end'] and f['module'] not in ('', 'verif_specs')]
+            if cands:
+                hit = min(cands, key=lambda f: f['end'] - f['start'])
+                # errors reported at a clause of a trait declaration / callee contract: skip those spans
+                if sp.get('is_primary'):
+                    break
+        if hit:
+            names.add(hit['name'])
+        else:
+            elsewhere.append(msg)
+    return names, elsewhere
+
+
 def restructured_functions(text, linemap, info, units):
     """functions whose source text differs from the annotated baseline by more than small in-place edits (statements
     added, removed or moved; new functions): their proof hints were written for a different text, so a failing obligation
@@ -596,21 +641,47 @@ def decide(pid, cfg, tier, seed, units, work, ev):
     solver_ms = 0
     modules_info = None
     extra_cov = {}
+    externalised = {}
     def one(fs):
-        with BUILD_LOCK:   # the desugaring catalogue keeps per-text counters: mirrors are built one at a time
-            # only the modules of the property and what they mention are mirrored: a change elsewhere cannot make this
-            # property undecided
-            text, linemap, info = mirror.build(fs, modules=mirror.closure(cfg['modules']))
         sub = os.path.join(work, 'fs_' + ('_'.join(fs) or 'none'))
         os.makedirs(sub)
         mpath = os.path.join(sub, 'mirror.rs')
-        open(mpath, 'w').write(text)
         mods = [m for m in cfg['modules'] if (m != 'history' or 'history' in fs)
                 and (not (m.startswith('tmpl_') and 'autocomplete' in m) or 'autocomplete' in fs)
                 and (m != 'tmpl_group_help' or 'help' in fs)]
         # the prelude does not depend on the feature set (only three spec constants do): verified with the default set
         pre = ['verif_specs'] if fs == mirror.ALL_FEATURES else []
-        res = run_verus(mpath, pre + mods, threads=16 if len(feature_sets) == 1 else 6)
+        ext = set()
+        lenient = False
+        for attempt in range(8):
+            with BUILD_LOCK:   # the desugaring catalogue keeps per-text counters: mirrors are built one at a time
+                # only the modules of the property and what they mention are mirrored: a change elsewhere cannot make
+                # this property undecided
+                desugar.LENIENT[0] = lenient
+                mirror.LENIENT[0] = lenient
+                try:
+                    text0, linemap, info = mirror.build(fs, modules=mirror.closure(cfg['modules']))
+                except (desugar.DesugarMismatch, mirror.Undecided):
+                    if lenient:
+                        raise
+                    lenient = True      # retry: mismatching rules skipped, orphaned in-body clause blocks dropped;
+                    continue            # the functions concerned are isolated below
+                finally:
+                    desugar.LENIENT[0] = False
+                    mirror.LENIENT[0] = False
+            text = externalise(text0, ext) if ext else text0
+            open(mpath, 'w').write(text)
+            res = run_verus(mpath, pre + mods, threads=16 if len(feature_sets) == 1 else 6)
+            # Function-level isolation: a function in which the front end reports an error (annotations that no longer
+            # fit a restructured body, an std call without specification, ...) is externalised -- body dropped, contract
+            # assumed -- and the run is repeated, so that every other function is still verified.  The properties the
+            # externalised function carries are undecided (see decide).
+            names, elsewhere = front_end_functions(res, text, linemap)
+            new = names - ext
+            if not new or elsewhere:
+                break
+            ext |= new
+        externalised[','.join(fs)] = sorted(ext)
         fails, undec = classify(res, text, linemap, units)
         restr = restructured_functions(text, linemap, info, units)
         for f in fails:
@@ -667,7 +738,7 @@ def decide(pid, cfg, tier, seed, units, work, ev):
                 if pid not in f['tags']:
                     f['tags'] = sorted(set(f['tags']) | {pid})
     mine = [f for f in all_fail if pid in f['tags']]
-    text, linemap, info = mirror.build(mirror.ALL_FEATURES, modules=mirror.closure(cfg['modules']))
+    text, linemap, info = outs[0][1], outs[0][2], outs[0][3]
     for f in function_spans(text):
         if linemap[f['start'] - 1][0] != 'src':
             continue  # spec/proof function contributed by the annotations
@@ -806,6 +877,36 @@ def decide(pid, cfg, tier, seed, units, work, ev):
                 print('failed obligation: %s / %s :: %s' % (f['function'], f['message'], f['clause'][:200]))
             print('VIOLATION property=%s replay=%s%s' % (pid, rpath, suffix))
             return 1
+    ext_all = sorted(set(x for v in externalised.values() for x in v))
+    if ext_all:
+        ev['coverage']['externalised_functions'] = {'functions': ext_all,
+            'meaning': 'the front end rejected these functions (annotations no longer fit their text / unsupported construct): '
+                       'body dropped, contract assumed, every other function verified; properties they carry are undecided'}
+    affected = [f for f in ext_all if pid in units.get(f, {}).get('props', []) or (f not in units and f.split('::')[0] in cfg['modules'])]
+    if affected and not mine:
+        w = None
+        try:
+            import witness
+            w = witness.search_support(pid, [{'function': f} for f in affected], seed, work, units)
+        except Exception as e:
+            log('witness search failed: %s' % e)
+        for f in affected[:6]:
+            print('undischarged: function %s could not be brought under its contract (front end: annotations do not fit its current text)' % f)
+        if w:
+            ev['violations'] = 1
+            ev['coverage']['decided_by'] = 'function not verifiable in its current form + witness on the real code'
+            rdir = os.path.join(VERIF, 'replays') if 'VERIF_NO_EVIDENCE' not in os.environ else os.path.join(work, 'replays')
+            os.makedirs(rdir, exist_ok=True)
+            h = hashlib.sha256(json.dumps([w.get('input'), w.get('driver')]).encode()).hexdigest()[:10]
+            rpath = os.path.join(rdir, '%s-%s.json' % (pid, h))
+            json.dump({'property': pid, 'failed_obligations': [
+                {'obligation': 'undischarged: %s (externalised)' % f, 'clause': '', 'tags': [pid]} for f in affected], 'witness': w},
+                open(rpath, 'w'), indent=1)
+            print('counterexample on the real code: %s  expected %s  actual %s' % (w.get('input'), str(w.get('expected'))[:300], str(w.get('actual'))[:300]))
+            print('VIOLATION property=%s replay=%s' % (pid, rpath))
+            return 1
+        print('UNDECIDED property=%s (%d function(s) carrying it could not be verified in their current form; no concrete violation of %s found on the real code)' % (pid, len(affected), pid))
+        return 2
     sup = [f for f in all_fail if pid in f.get('support', []) and pid not in f['tags']]
     if sup and not all_undec:
         # Only obligations that *support* this property failed (the property's own clauses still verify, but they were
